@@ -19,6 +19,56 @@ use std::io::Cursor;
 use std::sync::atomic::{AtomicU64, Ordering};
 use uuid::Uuid;
 
+/// A reader that hands out at most `step` bytes per read (a transport that delivers the encoding in pieces).
+struct Chunked {
+    data: Vec<u8>,
+    pos: usize,
+    step: usize,
+}
+impl tokio::io::AsyncRead for Chunked {
+    fn poll_read(mut self: std::pin::Pin<&mut Self>, _cx: &mut std::task::Context<'_>, buf: &mut tokio::io::ReadBuf<'_>) -> std::task::Poll<std::io::Result<()>> {
+        let n = self.step.min(self.data.len() - self.pos).min(buf.remaining());
+        let (a, b) = (self.pos, self.pos + n);
+        buf.put_slice(&self.data[a..b]);
+        self.pos = b;
+        std::task::Poll::Ready(Ok(()))
+    }
+}
+
+/// A writer that accepts `accept` bytes and then fails (`pending == false`) or blocks forever (`pending`).
+struct Faulty {
+    accept: usize,
+    pending: bool,
+    got: Vec<u8>,
+}
+impl tokio::io::AsyncWrite for Faulty {
+    fn poll_write(mut self: std::pin::Pin<&mut Self>, _cx: &mut std::task::Context<'_>, buf: &[u8]) -> std::task::Poll<std::io::Result<usize>> {
+        let left = self.accept - self.got.len().min(self.accept);
+        if left == 0 {
+            return if self.pending { std::task::Poll::Pending } else { std::task::Poll::Ready(Err(std::io::ErrorKind::BrokenPipe.into())) };
+        }
+        let n = left.min(buf.len());
+        self.got.extend_from_slice(&buf[..n]);
+        std::task::Poll::Ready(Ok(n))
+    }
+    fn poll_flush(self: std::pin::Pin<&mut Self>, _cx: &mut std::task::Context<'_>) -> std::task::Poll<std::io::Result<()>> {
+        std::task::Poll::Ready(Ok(()))
+    }
+    fn poll_shutdown(self: std::pin::Pin<&mut Self>, _cx: &mut std::task::Context<'_>) -> std::task::Poll<std::io::Result<()>> {
+        std::task::Poll::Ready(Ok(()))
+    }
+}
+
+/// polls a future once and drops it if it is not finished (a cancelled write)
+fn poll_once<F: std::future::Future>(f: F) -> Option<F::Output> {
+    let mut f = std::pin::pin!(f);
+    let mut cx = std::task::Context::from_waker(std::task::Waker::noop());
+    match f.as_mut().poll(&mut cx) {
+        std::task::Poll::Ready(v) => Some(v),
+        std::task::Poll::Pending => None,
+    }
+}
+
 struct Ctx<'a> {
     rep: &'a Report,
     evals: AtomicU64,
@@ -60,6 +110,16 @@ where
                 }
                 if cur.position() as usize != ref_body.len() {
                     return Err(("decode-consumed", format!("consumed {} of {}", cur.position(), ref_body.len())));
+                }
+                // the same bytes delivered in pieces decode to the same value
+                let steps: &[usize] = if ref_body.len() <= 2048 { &[1, 2, 3, 7, 64] } else { &[1, 4093] };
+                for step in steps {
+                    let mut rd = Chunked { data: ref_body.to_vec(), pos: 0, step: *step };
+                    match now(T::read_from_buffer(&mut rd)) {
+                        Ok(b) if b == pkt && rd.pos == ref_body.len() => {}
+                        Ok(b) => return Err(("decode-in-pieces", format!("delivered {step} byte(s) per read: decoded {b:?}, consumed {} of {}", rd.pos, ref_body.len()))),
+                        Err(e) => return Err(("decode-in-pieces", format!("delivered {step} byte(s) per read: {e}"))),
+                    }
                 }
                 Ok(())
             }
@@ -126,6 +186,69 @@ where
     }
 }
 
+/// Histories of writes on one thread: a packet that is written successfully, then a write that fails,
+/// blocks and is abandoned, or cannot be encoded, then another packet. The frame of the last packet must be
+/// exactly its own `[len][id][body]`, whatever happened before. Returns the number of histories.
+fn write_histories(cx: &Ctx) -> u64 {
+    let mut n = 0u64;
+    let first = conf_out::TransferPacket { host: "first.example".into(), port: 25565 };
+    let first_frame = codec::frame(0x0B, &W::new().string("first.example").varint(25565).done());
+    let cookie = conf_out::StoreCookiePacket { key: "passage:authentication".into(), payload: (0..90u8).collect() };
+    let cookie_frame = codec::frame(0x0A, &W::new().string("passage:authentication").bytes(&(0..90u8).collect::<Vec<u8>>()).done());
+    let last = conf_out::KeepAlivePacket { id: 0x0102_0304_0506_0708 };
+    let last_frame = codec::frame(0x04, &W::new().u64(0x0102_0304_0506_0708).done());
+    let mut judge = |what: String, out: &[u8], want: &[u8]| {
+        cx.evals.fetch_add(1, Ordering::Relaxed);
+        if out != want {
+            viol(cx, "frame-after-failed-write".into(), format!("history [Transfer ok, {what}, Keep Alive]: the last frame is {} but its layout is {}", short(out), short(want)), json!({"history": what}), out.len() as u64);
+        }
+    };
+    for accept in 0..=cookie_frame.len() {
+        for pending in [false, true] {
+            if accept == cookie_frame.len() && pending {
+                continue;
+            }
+            n += 1;
+            let mut a: Vec<u8> = vec![];
+            let _ = now(a.write_packet(first.clone()));
+            if a != first_frame {
+                viol(cx, "Transfer:frame-layout".into(), format!("frame {}", short(&a)), json!({"packet": "Transfer"}), 0);
+            }
+            let mut f = Faulty { accept, pending, got: vec![] };
+            let r = poll_once(f.write_packet(cookie.clone()));
+            // what the faulty transport did accept is a prefix of the cookie frame
+            if f.got[..] != cookie_frame[..f.got.len().min(cookie_frame.len())] {
+                viol(cx, "partial-frame-not-a-prefix".into(), format!("accepted {} of the Store Cookie frame {}", short(&f.got), short(&cookie_frame)), json!({"history": format!("accept {accept}")}), 0);
+            }
+            let what = format!("Store Cookie on a transport that accepts {accept} byte(s) and then {} -> {}", if pending { "blocks (write abandoned)" } else { "fails" }, match &r { None => "pending, dropped".to_string(), Some(Ok(k)) => format!("Ok({k})"), Some(Err(e)) => format!("Err({e})") });
+            let mut c: Vec<u8> = vec![];
+            let _ = now(c.write_packet(last.clone()));
+            judge(what, &c, &last_frame);
+        }
+    }
+    // a packet that cannot be encoded (a compound text component that is not JSON), then the next packet
+    for reason in ["{not json", "{\"text\":", "{}}"] {
+        n += 1;
+        let mut a: Vec<u8> = vec![];
+        let _ = now(a.write_packet(first.clone()));
+        let mut b: Vec<u8> = vec![];
+        let r = std::panic::catch_unwind(std::panic::AssertUnwindSafe(|| now(b.write_packet(conf_out::DisconnectPacket { reason: reason.to_string() }))));
+        let mut c: Vec<u8> = vec![];
+        let _ = now(c.write_packet(last.clone()));
+        judge(format!("Disconnect with reason {reason:?} -> {}", match r { Ok(Ok(k)) => format!("Ok({k})"), Ok(Err(e)) => format!("Err({e})"), Err(_) => "panic".into() }), &c, &last_frame);
+        // and a reader history: a failed decode must not influence the next decode
+        let mut cur = Cursor::new(vec![0xff, 0xff, 0xff, 0xff, 0xff, 0xff]);
+        let _ = std::panic::catch_unwind(std::panic::AssertUnwindSafe(|| now(cur.read_packet::<conf_in::KeepAlivePacket>())));
+        let mut cur = Cursor::new(codec::frame(0x04, &W::new().u64(7).done()));
+        cx.evals.fetch_add(1, Ordering::Relaxed);
+        match now(cur.read_packet::<conf_in::KeepAlivePacket>()) {
+            Ok(p) if p.id == 7 => {}
+            other => viol(cx, "frame-decode-after-failed-decode".into(), format!("{other:?}"), json!({"history": "decode"}), 0),
+        }
+    }
+    n
+}
+
 fn expect_reject<T>(cx: &Ctx, name: &str, what: &str, body: &[u8])
 where
     T: ReadPacket + Debug + Send + Sync,
@@ -159,6 +282,10 @@ fn strings() -> Vec<String> {
     }
     // multi-byte content crossing the one-byte length boundary
     v.push("é".repeat(64));
+    // the protocol limit is 32767 UTF-16 units, i.e. up to three times as many bytes
+    v.push("é".repeat(32767));
+    v.push("€".repeat(32767));
+    v.push("😀".repeat(16383));
     v
 }
 fn short_strings() -> Vec<String> {
@@ -355,6 +482,8 @@ fn replay(cli: &Cli, case: &Value) -> ! {
         check_varlong(&cx, v);
     } else if let Some(t) = case.get("text").and_then(Value::as_str) {
         check_text_component(&cx, t);
+    } else if case.get("history").is_some() {
+        write_histories(&cx);
     } else {
         println!("packet-level cases are re-run by the full enumeration (cheap); running it");
         packets(&cx);
@@ -366,6 +495,9 @@ fn packets(cx: &Ctx) {
     // ---- handshake
     for pv in varints() {
         for host in strings() {
+            if host.len() > 40_000 && pv != 769 {
+                continue; // the three longest strings once per port, not per protocol version
+            }
             for port in u16s() {
                 for (st, ord) in [(State::Status, 1), (State::Login, 2), (State::Transfer, 3)] {
                     let body = W::new().varint(pv).string(&host).u16(port).varint(ord).done();
@@ -661,6 +793,8 @@ pub fn run(cli: Cli) -> ! {
 
     packets(&cx);
     let packet_cases = cx.evals.load(Ordering::Relaxed);
+    let histories = write_histories(&cx);
+    rep.set("write_histories", json!(histories));
 
     // ---- VarInt
     let varint_count = AtomicU64::new(0);
@@ -718,7 +852,7 @@ pub fn run(cli: Cli) -> ! {
     rep.set("exhaustive", json!(true));
     rep.set(
         "rule",
-        json!("full product of per-field boundary domains for every packet type with fields (handshake, status, login, configuration), each compared byte-for-byte with an independent encoder and decoded back; invalid enum ordinals; VarInt: all 2^32 (thorough) or |v|<2^18 plus +-64 around every power of two (quick); VarLong: all <=3-byte values, +-1024 around every power of two, two-group patterns, single-bit/zero patterns. Every enumerated value is distinct by construction."),
+        json!("full product of per-field boundary domains for every packet type with fields (handshake, status, login, configuration), each compared byte-for-byte with an independent encoder and decoded back, also from a reader that delivers 1, 2, 3, 7 or 64 bytes per read (1 or 4093 for bodies above 2 KiB); strings up to the protocol limit of 32767 UTF-16 units in 1-, 2-, 3- and 4-byte characters; histories [packet, a write that fails or blocks and is abandoned after every possible number of accepted bytes or a packet that cannot be encoded, packet] whose last frame must be unaffected; invalid enum ordinals; VarInt: all 2^32 (thorough) or |v|<2^18 plus +-64 around every power of two (quick); VarLong: all <=3-byte values, +-1024 around every power of two, two-group patterns, single-bit/zero patterns. Every enumerated value is distinct by construction."),
     );
     rep.sample(json!({"packet": "Handshake", "value": {"protocol_version": 769, "server_address": "mc.example.org", "server_port": 25565, "next_state": "Transfer"},
         "reference_body_hex": hex(&W::new().varint(769).string("mc.example.org").u16(25565).varint(3).done())}));
